@@ -12,622 +12,900 @@ Definition show_fres (r : fres) : string :=
   end.
 Definition check (rs : list rune) : string := digest (show_fres (format_res rs)).
 Definition full (rs : list rune) : string := show_fres (format_res rs).
-Eval vm_compute in ("<<<M1469>>>" ++ check (runes_of_ascii "packet Z9_ {
-    @calculatedFrom(""1"")
-    match body as u8x {
-        [7] : u,
-        [
-            7, 00, 00, ""a\""b"", """",
-            ""\n""
-        ] : charz,
-        1 : Packet,
-        """ ++ [28040; 24687]%N ++ runes_of_ascii """ : f32a,
-        00 : len,
-    },
-    @lengthOf(calculatedFrom)
-    MetaDataX,
-    Packet @lengthOf(int),
-    repeat char[7] calculatedFrom,
-    @calculatedFrom(""a\\"")
-    zchar[255] f32a @calculatedFrom(""" ++ [233]%N ++ runes_of_ascii "t" ++ [233]%N ++ runes_of_ascii """),
-    @calculatedFrom(""a\""b"")
-    char[7] i8i8 @calculatedFrom(""a\\"") `crlf
-        line`,
-    zchar[0123456789] x `line1
-        line2`,
-    @leftPad()
-    repeat u64 stringy,
-    @lengthOf(x)
-    repeat body {
-        //	t
-        Z9_ {
-            repeat asx,
-            repeat crc i64_,
-            repeat rootA {
-                repeat rootA MetaDataX `line1
-                                line2`,
-                match i64_ as calculatedFrom {
-                    7 : x,
-                    [7] : stringy,
-                    ""1"" : i8i8,
-                    [
-                        42, 10, 255, 0, 10,
-                        ""1"", """ ++ [233]%N ++ runes_of_ascii "t" ++ [233]%N ++ runes_of_ascii """
-                    ] : u,
-                    ""x y"" : i8i8,
-                },
-                uint64 _x `
-                                `,
-                char[0] i64_ @calculatedFrom(""CRC32""),
-            },
-            x_y_z {
-                char[] T,
-            },
-        },
-        repeat u64 Foo `a\`,
-        uint8 uint8x,
-        match roots as chars {
-            1 : _x,
-            ""a\""b"" : uint8x,
-            42 : metadata,
-            // `tick` ""quote"" 'q'
-            [255, ""\n""] : zchar,
-            [3, 4294967296, 0123456789, """ ++ [233]%N ++ runes_of_ascii "t" ++ [233]%N ++ runes_of_ascii """, ""x y""] : metadata,
-            [""it's"", ""// no comment""] : Z9_,
-        },
-    },
-}// a // b
+Eval vm_compute in ("<<<M1601>>>" ++ check (runes_of_ascii "  packet
 
-MetaData rootA {
-    char[4294967296] msg_type,
-    char[] u128,
-    uint64 a1,
-    int8 crc,
-    Pad msg_type `doc`,
-}
-
-//	t
-/// triple
-packet x_y_z {
-    @lengthOf(crc)
-    match packetx as f32a {
-        0123456789 : A,
-        00 : u,
-    },
-}")).
-Eval vm_compute in ("<<<M156>>>" ++ check (runes_of_ascii "packet
-A { @rightPad ( '0' ) repeat	i8i8
-    { zchar[ 007 ]
-    packetx,
-    metadata `" ++ [28040; 24687; 31867; 22411]%N ++ runes_of_ascii "` ,	repeat float64  T ,}, @tag(0)Z9_ { int
-@lengthOf( tag
-)`line1
-line2`
-, repeat i8i8 // packet A { u8 x, }
-{  zchar[  00 ]stringy
-,
-repeat f32a{ match i64_ //
-as
-    string_ {[ 255 , ""{,}"" , 0123456789 ]
-: x_y_z
-, """ ++ [233]%N ++ runes_of_ascii "t" ++ [233]%N ++ runes_of_ascii """ : A
-, ""`tick`"" : len ,} , } ,
-    //
-    repeat u8x {u16 Z9_
-@calculatedFrom(""" ++ [128512]%N ++ runes_of_ascii """ ) `line1
-line2` ,f32 matchKey
-    ,} ,// " ++ [27880; 37322]%N ++ runes_of_ascii "
-float64 u8x `
-`,
-    },//
-} , // `tick` ""quote"" 'q'
-a1	{ repeat
-    // trailing space 
-    zchar[ 007
-] Foo `two words`
-,f32a	@calculatedFrom( """ ++ [28040; 24687]%N ++ runes_of_ascii """// trailing space 
-) ,int64 i64_  @calculatedFrom( // trailing space 
-""`tick`"" ) , } ,
-    @lengthOf(
-    // c
-    Header )	f32
-stringy @calculatedFrom(
-""x y"" )`say ""hi""` , Foo , float64
-BodyLength@calculatedFrom( // " ++ [27880; 37322]%N ++ runes_of_ascii "
-""packet"") ,
-    uint32
-// packet A { u8 x, }
-//
-int
-//
-//x
-, } packet string_{ @tag( 4294967296
-) repeat u
-`two words` , repeat zchar[ 0 ]
-BodyLength
-, @tag( 255 )/// triple
-int `line1
-line2` ,	uint8x`it's`,@tag(
-65535 )
-int8
     metadata
-`" ++ [233]%N ++ runes_of_ascii "` ,/// triple
-match
+{
+
+    repeat
+
+    f64  // " ++ [128512]%N ++ runes_of_ascii " emoji
+
+Foo 
+, repeat 
+Logon	f32a
+`
+`	, 
+@calculatedFrom(""1"")
+repeat
+
+    uint8  // trailing space 
+  	calculatedFrom`u8 x,`
+	, char[]packetx, 	 // packet A { u8 x, }
+	@calculatedFrom(
+	""abc""
+)
+
+    Pad@lengthOf( msg_type
+	)
+
+`line1
+line2`, @rightPad ( ' '	)tag  `" ++ [233]%N ++ runes_of_ascii "` ,
+
+@tag(10 
+/// triple
+
+) u8x	@calculatedFrom(
+	""CRC32"" 
+) 
+,
+match 
+// trailing space 
+	  // trailing space 
+
+metadata as  msg_type 
+    //
+	// " ++ [27880; 37322]%N ++ runes_of_ascii "
+{
+    [
+""\n""//x
+
+,
+
+0123456789  // c
+    ]	:
 options1
-//x
-// " ++ [128512]%N ++ runes_of_ascii " emoji
-as
-    float// packet A { u8 x, }
-{ 3: f32a , """ ++ [28040; 24687]%N ++ runes_of_ascii """
-    : charz
-,}
-,match uint8x	as
-string_ { ""CRC32"" //x
-:
-x
-, } , uint8	packetx`crlf
-line` ,
-@leftPad (
-)
-    zchar[
-0
-] Foo `say ""hi""`, }
-")).
-Eval vm_compute in ("<<<M359>>>" ++ check (runes_of_ascii "root	packet // @lengthOf(
-repeatCount {
-    @lengthOf(u8x
-) @calculatedFrom(""1"" ) @tag( 007 ) repeat zchar[
-42 ] Header
-    `" ++ [28040; 24687; 31867; 22411]%N ++ runes_of_ascii "` , match options1 as asx
-{ 255
-    // `tick` ""quote"" 'q'
-    :
-    roots , }, // a // b
-Header
-    @lengthOf(
-    // a // b
-    options1	) `` , Header //	t
-@lengthOf(
-    len )`{ , }`
-, o matchKey `u8 x,` ,} packet packetx {zchar[
-255
+
+,""\n"":
+	float  ,
+}	, 
+}
+    packet 
+    // " ++ [128512]%N ++ runes_of_ascii " emoji
+	// " ++ [128512]%N ++ runes_of_ascii " emoji
+    MetaDataX
+{
+string
+
+string_  `doc` ,  @rightPad( '0'
+)zchar[ 
+        // " ++ [128512]%N ++ runes_of_ascii " emoji
+
+// `tick` ""quote"" 'q'
+	00
+
 ]
-crc
-    , }
-    packet
-    Logon {
-    body { float { repeat Logon  trueish ,  } , } ,	@calculatedFrom(
-    // `tick` ""quote"" 'q'
-    ""`tick`"" ) repeat char[
-    0] f32a
-,match body
-    as
-    float {[65535
-, """ ++ [28040; 24687]%N ++ runes_of_ascii """
-    ] :
-calculatedFrom ,}
-, u32 float@calculatedFrom(
-    """ ++ [233]%N ++ runes_of_ascii "t" ++ [233]%N ++ runes_of_ascii """ // @lengthOf(
-)
-, string body @lengthOf( len
-    )`
-` //
-, u8x
-@calculatedFrom( ""a\""b"")
-    //	t
-    , //	t
-float64 options1@calculatedFrom(""" ++ [128512]%N ++ runes_of_ascii """ )`it's`
-    ,
-//x
-// trailing space 
-match crc as chars
-    {
-3
-: options1 // @lengthOf(
-, [ 10 ] :_x  [ ""{,}""
-] :options1
-,[ ""CRC32"", ""a\\""  ,
-""a\\"" , ""packet"", 7
-    // `tick` ""quote"" 'q'
-    ]
-:
-As
-    } , i16 msg_type , }")).
-Eval vm_compute in ("<<<M13>>>" ++ check (runes_of_ascii "root
-    packet	roots{ // `tick` ""quote"" 'q'
-} options	{	asx =
-    ""\n"" ; x_y_z =
-3 ;rootA = ""CRC32""
-    ;float=char  T = false
-; }
-packet falsey {
-body { match u8x as /// triple
-string_{ [
-42,7 ,65535
-    ,
-    3 ,
-    42 ,7 , ""1""
-    , ""packet"" ]:
-    // `tick` ""quote"" 'q'
-    i64_ , [ ""abc""]
-    :  Foo ,	""a\\""
+    zchar
+`a\`
+,
+	}
+
+    options	{ leftPad
+= 0 float=4294967296;
+    } // `tick` ""quote"" 'q'
+root
+packet  body { @calculatedFrom(
+
+    ""1"")  @lengthOf(
+	int
+
+    )match
+
+float
+    as Z9_
+
+{
+    // packet A { u8 x, }
+      // trailing space 
+	42
+
     :
-roots ,
-    4294967296 :	stringy	}
-    , //x
-asx
-`{ , }` // " ++ [128512]%N ++ runes_of_ascii " emoji
-, i8
-charz@lengthOf( // trailing space 
-x_y_z)// trailing space 
-`a\` ,}
-    // @lengthOf(
-    , @tag( 65535 ) i64_ @lengthOf( tag )`u8 x,`
-// a // b
-//	t
-,Z9_@lengthOf( int )
-, @calculatedFrom( ""a\""b""
-)uint16  stringy @lengthOf( trueish ) , Logon	{string  Logon `say ""hi""` , packetx
-i64_ , match msg_type as	float
-{ ""\n"" : i64_,	[
-""" ++ [128512]%N ++ runes_of_ascii """
-    ]
+
+    x""packet"" 
+: // `tick` ""quote"" 'q'
+	  matchKey
+
+, """ ++ [28040; 24687]%N ++ runes_of_ascii """ 
+
+    /// triple
+  	// packet A { u8 x, }
+		:
+
+o
+,	255
 :
-metadata , // `tick` ""quote"" 'q'
+    float},
+@tag( 0123456789 
+)match
+	calculatedFrom as// @lengthOf(
+	trueish  {  [""packet""
+,
+	""`tick`""//x
+
+, 
+""" ++ [233]%N ++ runes_of_ascii "t" ++ [233]%N ++ runes_of_ascii """
+]:
+MetaDataX
+4294967296	: trueish
+    , 3  :
+
+    // trailing space 
+  // packet A { u8 x, }
+	i64_ ,
+
+    0123456789
+	:f32a
+
+,[7
+	,  //	t
+  10 ,""CRC32"" 
+,	""x y""	, ""\n"" 
+    // `tick` ""quote"" 'q'
+,""CRC32"" ,
+	""`tick`""
+    ]  // `tick` ""quote"" 'q'
+
+:
+
+    body
+,  },
+
+char[ 1  //
+  ]
+
+    Foo  // " ++ [128512]%N ++ runes_of_ascii " emoji
+
+  ,@rightPad
+
+    (
+
+    ' ' 
+)
+    @calculatedFrom(// " ++ [27880; 37322]%N ++ runes_of_ascii "
+	""a	b"")
+
+    repeat 
+string_{ repeat	Logon	// @lengthOf(
+	,	Z9_
+i8i8
+
+,match
+
+Z9_
+as
+
+    A
+{
+
+    [ 42 ]
+	: Logon,
 [
+""CRC32""
+
+    ,
+	1,
+    ""a\""b"" ,
+4294967296
+, 
+0
+, 
+""\" ++ [233]%N ++ runes_of_ascii """
+	] :	roots ""a\""b""	:MetaDataX 
+, 255	: _x
+
+, 
+65535
+    :rootA
+	,}
+
+    ,	match 
+_x as Foo  {
+
+    [  255
+, """ ++ [28040; 24687]%N ++ runes_of_ascii """
+, 	 // packet A { u8 x, }
+    ""CRC32""
+	, 
+	    // c
+  """ ++ [233]%N ++ runes_of_ascii "t" ++ [233]%N ++ runes_of_ascii """
+,
+    ""abc""
+]
+
+:	len  ""a\\""
+    :	Pad
+    0
+    :
+
+falsey
+    ,
+
+3
+    : u128,  }	, // a // b
+
+} , repeat 	 // packet A { u8 x, }
+    	options1 int `{ , }`
+    // packet A { u8 x, }
+    //
+    , }")).
+Eval vm_compute in ("<<<M1683>>>" ++ check (runes_of_ascii "
+options
+{  StringPrefixLenType  =
+u16;
+
+    ArrayPrefixLenType  = u16 ;
+}
+packet 
+SampleBinary {
+
+    uint16 MsgType 
+`" ++ [28040; 24687; 31867; 22411]%N ++ runes_of_ascii "` , u16
+	BodyLenght @lengthOf(
+
+Body
+
+    ) 
+`" ++ [28040; 24687; 20307; 38271; 24230]%N ++ runes_of_ascii "`
+, match	MsgType
+
+    as	Body
+{
+
+    1 : Logon  , 2 
+:	Logout 
+, 3 
+:  Heartbeat
+	,4 :
+RiskControlRequest  , 5
+
+    : RiskControlResponse ,
+}	,	@calculatedFrom(
+	""CRC32""
+
+    )
+
+u32  Ckecksum `" ++ [26657; 39564; 21644]%N ++ runes_of_ascii "`, }
+
+packet
+	Logon{
+    @leftPad(
+
+    '0'	)
+char[10  ] UserName	`" ++ [29992; 25143; 21517]%N ++ runes_of_ascii "`
+,
+string
+
+    Password 
+`" ++ [23494; 30721]%N ++ runes_of_ascii "`
+	,
+
+    uint64
+	ClientId
+
+`" ++ [23458; 25143; 31471]%N ++ runes_of_ascii "ID`
+,u16
+
+HeartbeatInterval
+
+`" ++ [24515; 36339; 38388; 38548]%N ++ runes_of_ascii "`
+
+,
+
+    }
+
+packet 
+Logout
+    {
+
+@rightPad(	'0'  )char[10
+    ]
+UserName `" ++ [29992; 25143; 21517]%N ++ runes_of_ascii "`, 
+uint64 ClientId`" ++ [23458; 25143; 31471]%N ++ runes_of_ascii "ID` 
+, }
+
+packet
+    Heartbeat
+	{}
+packet
+
+RiskControlRequest
+{string
+    UniqueOrderId `" ++ [21807; 19968; 35746; 21333; 21495]%N ++ runes_of_ascii "` ,char[16
+]
+	ClOrdID
+	`" ++ [23458; 25143; 35746; 21333; 21495]%N ++ runes_of_ascii "` 
+, char[
+
+3 
+]MarketID `" ++ [24066; 22330]%N ++ runes_of_ascii "id`
+
+    , char[ 12
+]  SecurityID 
+`" ++ [35777; 21048; 20195; 30721]%N ++ runes_of_ascii "`
+
+,  char Side
+    `" ++ [20080; 21334; 26041; 21521]%N ++ runes_of_ascii "` ,
+
+    char  OrderType
+	`" ++ [35746; 21333; 31867; 22411]%N ++ runes_of_ascii "` 
+, u64  Price `" ++ [20215; 26684]%N ++ runes_of_ascii "`,	u32
+
+    Qty	`" ++ [25968; 37327]%N ++ runes_of_ascii "`
+,
+repeat	string
+ExtraInfo`" ++ [38468; 21152; 20449; 24687]%N ++ runes_of_ascii "` 
+,  repeat
+
+SubOrder { char[
+
+    16 ]  ClOrdID`" ++ [23376; 35746; 21333; 21495]%N ++ runes_of_ascii "`
+,
+
+u64
+
+    Price`" ++ [23376; 35746; 21333; 20215; 26684]%N ++ runes_of_ascii "`
+
+    ,
+
+    u32	Qty `" ++ [23376; 35746; 21333; 25968; 37327]%N ++ runes_of_ascii "` , } 
+,}packet 
+RiskControlResponse
+	{
+    string UniqueOrderId `" ++ [21807; 19968; 35746; 21333; 21495]%N ++ runes_of_ascii "`
+,i32
+
+    Status`" ++ [29366; 24577]%N ++ runes_of_ascii "`,
+	string	Msg
+	`" ++ [32467; 26524; 20449; 24687]%N ++ runes_of_ascii "`
+
+    ,	repeat
+
+Detail, } packet 
+Detail{
+
+string
+	RuleName 
+`" ++ [35268; 21017; 21517; 31216]%N ++ runes_of_ascii "` ,
+u16
+Code 
+`" ++ [21407; 22240; 20195; 30721]%N ++ runes_of_ascii "`
+    ,
+
+}")).
+Eval vm_compute in ("<<<M143>>>" ++ check (runes_of_ascii "
+packet  lengthOf
+{  @tag( 65535
+/// triple
+//	t
+)@tag( //	t
+3 ) @tag( 0123456789) options1 @calculatedFrom(""abc""
+    ) , @rightPad
+( '0')falsey @lengthOf( a1  )
+    ,
+    @lengthOf(Pad
+)body @calculatedFrom( // " ++ [128512]%N ++ runes_of_ascii " emoji
+""packet"" ) // trailing space 
+,
+} packet int
+{ string Foo @calculatedFrom(""CRC32"" ) ,}
+root
+// trailing space 
+//	t
+packet uint8x
+    {}
+root packet len { x_y_z
+_x ,
+    BodyLength rootA
+/// triple
+//
+,
+match f32a as Logon
+    {[ ""a\""b"" ,
+""" ++ [28040; 24687]%N ++ runes_of_ascii """
+    ,
+    """ ++ [128512]%N ++ runes_of_ascii """
+,65535, 00 ,4294967296
+    ,
+"""" ,""abc"" ]
+    : roots,[
+    00 ] :
+A ,  [
+    65535
+// a // b
+// trailing space 
+,
 // trailing space 
 // " ++ [128512]%N ++ runes_of_ascii " emoji
-10, ""1""  ]
-:zchar ,
-}
-    , //x
-}
-    //x
-    , Packet
-    @calculatedFrom(""CRC32"" ), }
-")).
-Eval vm_compute in ("<<<M135>>>" ++ check (runes_of_ascii "
-packet crc
-    {@tag(	0)  @calculatedFrom(
-    ""{,}""	) @rightPad ( ' ')	repeat uint8 lengthOf // a // b
-,
-    char[	42 ] float ,
-    repeat a1 // packet A { u8 x, }
-{ match
-x_y_z as charz
-    { [
-00
-, 4294967296,
-//x
-// a // b
-""it's"",""" ++ [28040; 24687]%N ++ runes_of_ascii """ ] ://x
-zchar,	[
-    ""packet"" ,// c
-""x y"",
-""it's"" ,""abc"" ,
-""it's""
-    ] :string_ , 0 : Z9_
-}
-    // `tick` ""quote"" 'q'
-    , // `tick` ""quote"" 'q'
-} ,match u8x
-as//x
-pack {[ 0123456789
-, ""x y""
-] : // c
-trueish /// triple
-, }	,
-    @calculatedFrom( ""a\""b""
-    // c
-    ) repeat string_ `a\`,
-packetx@calculatedFrom(
-""`tick`"" ) , int64 chars `say ""hi""` , @calculatedFrom(
-""a	b"" )@leftPad (  '\x00'
-) @lengthOf(
-    repeatCount)u64
-    falsey@calculatedFrom( ""\" ++ [233]%N ++ runes_of_ascii """
-    )
-,
-repeat Header { repeat
-    metadata , char[] chars`" ++ [28040; 24687; 31867; 22411]%N ++ runes_of_ascii "` , zchar[ 10] x_y_z `a\` ,	},
-// trailing space 
+65535
+, """" ]
 // c
-}
-")).
-Eval vm_compute in ("<<<M1349>>>" ++ check (runes_of_ascii "// top
-options
-    // c0
-{ // c1a
-  // c1b
-LittleEndian // c2a
-  // c2b
-= // c3a
-  // c3b
-false // c4a
-  // c4b
-; // c5a
-  // c5b
-StringPrefixLenType // c6
-= // c7a
-  // c7b
-u16 ; } // c10
-packet Heartbeat // c12a
-  // c12b
-{ // c13a
-  // c13b
-@rightPad ( '0'
-    // c16
-) char[ 7 // c19
-] // c20
-seqNo , // c22a
-  // c22b
-uint64 // c23a
-  // c23b
-Tail , // c25a
-  // c25b
-i16 // c26
-Flags // c27a
-  // c27b
-, // c28a
-  // c28b
-u16 // c29a
-  // c29b
-msgKind
-    // c30
-,
-    // c31
-} // c32a
-  // c32b
-root // c33
-packet // c34a
-  // c34b
-Reject // c35a
-  // c35b
-{ zchar[ 3 // c38a
-  // c38b
-] // c39
-tag7 // c40a
-  // c40b
-, // c41
-repeat // c42a
-  // c42b
-Heartbeat , repeat string
-    // c46
-clOrdID
-    // c47
-,
-    // c48
-}
-    // c49
-")).
-Eval vm_compute in ("<<<M1470>>>" ++ check (runes_of_ascii "options {
+// packet A { u8 x, }
+:
+// " ++ [128512]%N ++ runes_of_ascii " emoji
+// trailing space 
+pack ,
+    }
+    // trailing space 
+    ,repeat Pad `say ""hi""` ,
+    /// triple
+    a1 calculatedFrom
+    ,
+@lengthOf( stringy )char[] As @calculatedFrom( ""\" ++ [233]%N ++ runes_of_ascii """ )
+, zchar[ 0123456789 ] Z9_
+    @lengthOf( repeatCount ) // packet A { u8 x, }
+`a\`
+, repeat // `tick` ""quote"" 'q'
+string lengthOf , //x
+u8 falsey @calculatedFrom(
+""a\\"" )  ,@calculatedFrom( ""it's"") string calculatedFrom @lengthOf( MetaDataX ) ,}")).
+Eval vm_compute in ("<<<M1539>>>" ++ check (runes_of_ascii "options {
+    FixedStringPadFromLeft = true;
+    FixedStringPadChar = '0';
 }
 
-packet i8i8 {
-    @tag(3)
-    x @calculatedFrom(""it's""),
-    @lengthOf(f32a)
-    match rootA as uint8x {
-        0 : string_,
-        42 : Packet,
+packet Leg {
+    InPrice0 {
+        repeat string clOrdID,
+        int16 msgKind,
+        zchar[5] Px,
     },
-    @leftPad('\x00')
-    i64_ packetx `u8 x,`,
-    @calculatedFrom(""x y"")
-    matchKey {
-        len,
+    i16 f1,
+    repeat f64 Side2,
+    string Acct,
+}
+
+packet Cancel {
+    zchar[4] clOrdID,
+    string seqNo,
+    Leg,
+    @leftPad('0')
+    char[11] OrderId,
+}
+
+packet Quote {
+    repeat char[4] sym,
+    f64 OrderId,
+    repeat Leg,
+    repeat i64 f1,
+    int16 Note,
+    zchar[3] count,
+}
+
+root packet Ack {
+    @leftPad(' ')
+    char[10] sym,
+    InPx60 {
+        Cancel,
+        repeat char[1] f1,
+        string Tail,
+        repeat InNote55 {
+            int8 count,
+            f64 f1,
+            repeat Cancel,
+        },
+        char[] tag7,
+        repeat string msgKind,
     },
-    @lengthOf(matchKey)
-    @calculatedFrom(""abc"")
-    @lengthOf(x_y_z)
+    u8 lastPx,
+    match lastPx as Body {
+        152 : Quote,
+        173 : Cancel,
+        4 : Leg,
+    },
+    u16 Ref @calculatedFrom(""CRC32""),
+}")).
+Eval vm_compute in ("<<<M1912>>>" ++ check (runes_of_ascii "options {
+    // " ++ [27880; 37322]%N ++ runes_of_ascii "
+    //x
+    float = char[];
+    Header = false
+    //
     /// triple
-    repeat metadata `line1
-        line2`,
-    lengthOf repeatCount,/// triple
-    int32 roots @calculatedFrom(""`tick`"") `" ++ [233]%N ++ runes_of_ascii "`,
-    zchar[1] Packet @calculatedFrom(""// no comment""),
+}
+
+// `tick` ""quote"" 'q'
+options {
+    x = char[];
+}
+
+MetaData i64_ {
+    f64 As `
+        `,
+    repeatCount MetaDataX,
+    repeatCount u128,
+    metadata msg_type `tab	here`,
 }
 
 packet options1 {
-    @lengthOf(uint8x)
-    A @calculatedFrom(""it's"") `doc`,
-}
-
-root packet crc {
-    char[65535] chars,
-}")).
-Eval vm_compute in ("<<<M247>>>" ++ check (runes_of_ascii "
-options { leftPad // packet A { u8 x, }
-= 0
-;
-    //
-    Logon
-    =
-char // `tick` ""quote"" 'q'
-i64_ = '\x00'
-; }
-options { crc =
-i32	; matchKey =
-255
-    leftPad = ' ' ; metadata= 42// trailing space 
-; packetx =10
-    }
-root packet//
-A { @calculatedFrom( ""x y"" // c
-)/// triple
-zchar[ 00]
-f32a, @tag(
-255 )
-    zchar[
-0123456789 ]	a1
-@lengthOf(As )`" ++ [28040; 24687; 31867; 22411]%N ++ runes_of_ascii "`
-    /// triple
-    , int16 body, // `tick` ""quote"" 'q'
-uint64
-x
-@calculatedFrom(""1""
-//	t
-// " ++ [128512]%N ++ runes_of_ascii " emoji
-) // packet A { u8 x, }
-`line1
-line2` ,@lengthOf( Logon )char[
-    0// packet A { u8 x, }
-]float@calculatedFrom(
-""abc"" ) ,
-} MetaData u128 { }
-")).
-Eval vm_compute in ("<<<M1509>>>" ++ check (runes_of_ascii "packet u128 {
-    // trailing space 
-    string Header `say ""hi""`,
-    repeat crc f32a,
-    char[10] _x,
-    @calculatedFrom(""x y"")
-    repeat charz {
-        Logon @lengthOf(T) `crlf
-                line`,
-        repeat char[0123456789] Z9_ `crlf
-                line`,
+    repeat char[0123456789] T,
+    @tag(65535)
+    //x
+    @calculatedFrom(""CRC32"")
+    @calculatedFrom(""" ++ [28040; 24687]%N ++ runes_of_ascii """)
+    repeat string Logon,
+    @lengthOf(u128)
+    stringy {
+        string_ x,
     },
-    match Packet as float {
-        1 : lengthOf,
+    @tag(10)
+    u64 tag @lengthOf(roots),
+    Foo @lengthOf(Foo) `// not a comment`,
+    string pack `a\`,
+    match A as charz {
+        [3] : x,
     },
-    MetaDataX,
-    match x as u8x {
-        10 : crc,
+    @tag(42)
+    f64 msg_type @lengthOf(trueish),
+    match pack as options1 {
+        """ ++ [28040; 24687]%N ++ runes_of_ascii """ : string_,
+        [65535, 7, ""a\""b"", 7] : f32a,
+        4294967296 : o,
     },
-}
-
-root packet Header {
-    @calculatedFrom(""{,}"")
-    a1 {
-        char[007] pack,
-        stringy zchar,
-        repeat char[] o `it's`,
-    },
-}")).
-Eval vm_compute in ("<<<M1795>>>" ++ check (runes_of_ascii "//	t
+    char[] falsey,
+}// " ++ [128512]%N ++ runes_of_ascii " emoji")).
+Eval vm_compute in ("<<<M1776>>>" ++ check (runes_of_ascii "  //x
 packet
-    u8x  { u8x	{ body
-	@calculatedFrom( ""`tick`""
-) 
-`say ""hi""` , match  a1
-as
-	asx // c
-  {
-//	t
 
-0	:
-    // " ++ [27880; 37322]%N ++ runes_of_ascii "
+    x
+    {	@lengthOf(
+string_
 
-  // @lengthOf(
-
-	asx}  ,}, 
-@rightPad (
-) match
-
-    Logon as  x
-
-{
-    [00  ,
-""// no comment""
-
-    ,
-
-""a\\"" , 0123456789
-// trailing space 
-
-, 4294967296] :crc	, 
-00
-: options1, 	 // " ++ [27880; 37322]%N ++ runes_of_ascii "
-    42 : i8i8 ,
-    0
-
-:  o
-	0123456789 :
-body
-, }	, @tag(
-    7 
 )
-    float@lengthOf(
 
-stringy	)`" ++ [233]%N ++ runes_of_ascii "` 
-,
-    u
-        // c
-    @lengthOf(msg_type
-    )
-    ,
-    }")).
-Eval vm_compute in ("<<<M335>>>" ++ check (runes_of_ascii "//	t
-packet u8x  {
-u8x { body
-@calculatedFrom(	""`tick`"") `say ""hi""`
-,match a1	as
-    asx // c
-{
-    //	t
-    0
-    :
-// " ++ [27880; 37322]%N ++ runes_of_ascii "
-// @lengthOf(
-asx }
-    ,}
-, @rightPad ( )
-    match Logon as	x { [
-    00 , ""// no comment"" , ""a\\"",0123456789
+// `tick` ""quote"" 'q'
     // trailing space 
-    ,
-    4294967296 ] : crc , 00:options1 , // " ++ [27880; 37322]%N ++ runes_of_ascii "
-42
-    :i8i8,0 : o 0123456789
-: body , } ,@tag(
-7 )float
-    @lengthOf(
-stringy) `" ++ [233]%N ++ runes_of_ascii "`,
-u
-    // c
-    @lengthOf( msg_type )
-,
-    }")).
-Eval vm_compute in ("<<<M76>>>" ++ check (runes_of_ascii "packet rootA { repeat uint16 stringy `" ++ [233]%N ++ runes_of_ascii "`
-,body
-@lengthOf( stringy ) , int32 matchKey // " ++ [27880; 37322]%N ++ runes_of_ascii "
-,
-    @lengthOf(roots)@calculatedFrom( ""a\""b""
-) @leftPad(' ') i64
-    leftPad
-@lengthOf( repeatCount )
-`u8 x,` , //	t
-f64 len
-    @lengthOf( BodyLength// trailing space 
-) `// not a comment` , @rightPad
-(
-)
-    @leftPad ( '0')repeat
-string len
-, // c
-char[] chars `two words`	, } //	t")).
-Eval vm_compute in ("<<<M245>>>" ++ check (runes_of_ascii "MetaData float{ int16
-// c
-// " ++ [128512]%N ++ runes_of_ascii " emoji
-chars , int8 _x
-, char	charz ,
-Header  u8x
-    , u16 _x
-,
-    // @lengthOf(
-    x_y_z repeatCount ,}	packet Foo
-{ @tag(//	t
-1  )
-string Logon	`
+msg_type{ int// a // b
+
+@lengthOf(
+
+    chars  )
+
+    //x
+		// " ++ [27880; 37322]%N ++ runes_of_ascii "
+	`" ++ [28040; 24687; 31867; 22411]%N ++ runes_of_ascii "` ,
+int
+    `a\`
+
+    ,}
+    , 
+uint32 
+chars 
+@calculatedFrom( ""`tick`""	) 
 `
-, }//x
-options{ zchar =  ' ' trueish = //x
-""""
-    leftPad =255 ;
-}	root packet options1 {u64 packetx// `tick` ""quote"" 'q'
-@calculatedFrom(""// no comment""  ) ``,}
+` ,@lengthOf( 
+packetx 	 // trailing space 
+	)
+	match 
+metadata 
+as
+    x_y_z {
+65535:
+x ,007
+	    // `tick` ""quote"" 'q'
+
+  // " ++ [128512]%N ++ runes_of_ascii " emoji
+
+: 
+u
+    [7	, ""// no comment""
+
+    , """ ++ [28040; 24687]%N ++ runes_of_ascii """
+	]
+
+: x""a\\""
+	:MetaDataX 
+,
+
+0123456789 : lengthOf 10
+: 
+//
+
+  // `tick` ""quote"" 'q'
+      float
+
+} ,  u16 Logon
+    @calculatedFrom(
+    ""x y""	)
+    `tab	here` 
+	    //	t
+
+//
+
+,	@lengthOf(
+
+    Foo)zchar	/// triple
+
+	, }
+	packet
+	tag
+{ }	root packet
+    x_y_z
+{
+}	MetaData
+int
+
+    {
+	string
+
+A
+	`" ++ [233]%N ++ runes_of_ascii "` ,}
 ")).
+Eval vm_compute in ("<<<M1327>>>" ++ check (runes_of_ascii "// top
+packet
+    // c0
+Logon { // c2a
+  // c2b
+string // c3a
+  // c3b
+user
+    // c4
+, // c5a
+  // c5b
+} // c6a
+  // c6b
+root
+    // c7
+packet Frame // c9a
+  // c9b
+{ // c10
+u8
+    // c11
+K // c12
+,
+    // c13
+match // c14
+K // c15
+as // c16
+Body
+    // c17
+{
+    // c18
+1 :
+    // c20
+Logon // c21
+, // c22a
+  // c22b
+2 // c23
+: // c24a
+  // c24b
+Logout // c25a
+  // c25b
+,
+    // c26
+} // c27
+, // c28a
+  // c28b
+Tail , // c30a
+  // c30b
+} // c31a
+  // c31b
+packet
+    // c32
+Logout // c33a
+  // c33b
+{ // c34a
+  // c34b
+u16 // c35a
+  // c35b
+reason
+    // c36
+, }
+    // c38
+packet
+    // c39
+Tail
+    // c40
+{
+    // c41
+u32 crc
+    // c43
+, // c44
+} // c45a
+  // c45b
+")).
+Eval vm_compute in ("<<<M1118>>>" ++ check (runes_of_ascii "MetaData Packet
+    // c1
+{ // c2
+} packet // c4a
+  // c4b
+charz // c5a
+  // c5b
+{ // c6a
+  // c6b
+Foo // c7
+asx `it's` ,
+    // c10
+@lengthOf( // c11
+T )
+    // c13
+@calculatedFrom(
+    // c14
+"""" // c15
+)
+    // c16
+@calculatedFrom(
+    // c17
+""x y"" // c18
+) // c19a
+  // c19b
+zchar[ 007 // c21
+] repeatCount @lengthOf(
+    // c24
+int // c25
+)
+    // c26
+`a\`
+    // c27
+, // c28a
+  // c28b
+i8
+    // c29
+string_ // c30a
+  // c30b
+, // c31
+repeat // c32
+options1 // c33
+Pad
+    // c34
+, } // c36a
+  // c36b
+root packet
+    // c38
+Packet { int8 // c41
+float `doc` // c43
+, // c44
+}
+    // c45
+")).
+Eval vm_compute in ("<<<M327>>>" ++ check (runes_of_ascii "root packet asx
+    { tag body `u8 x,` , }
+packet string_ {
+    @lengthOf(
+len // a // b
+)repeat	zchar[ 42 ] u8x,zchar[ 0 ] asx
+    , } packet
+// " ++ [128512]%N ++ runes_of_ascii " emoji
+// " ++ [27880; 37322]%N ++ runes_of_ascii "
+int {repeat crc
+    { zchar float , match
+    i8i8 as rootA//x
+{ 255 : lengthOf , 1 :lengthOf
+,3
+    :
+roots , 3 : uint8x ,0
+    :As , ""`tick`"" :	repeatCount , }  , repeat
+/// triple
+//
+char[]
+falsey ,
+    u64 lengthOf ,} , @lengthOf( crc ) lengthOf i64_ , leftPad
+`crlf
+line`, }
+    root	packet zchar{ f32 _x @calculatedFrom( ""a\\"" ), }	MetaData chars // trailing space 
+{//
+}")).
+Eval vm_compute in ("<<<M210>>>" ++ check (runes_of_ascii "MetaData tag {
+//
+//
+char[// a // b
+3 ] // a // b
+msg_type
+    // c
+    , char[7 ] options1
+,
+    // trailing space 
+    float crc
+,calculatedFrom pack ,int64 u  `a\`,}
+packet leftPad{char[
+    1
+]
+    /// triple
+    zchar
+,
+    //
+    } packet crc { // c
+@lengthOf( packetx	) @lengthOf( asx)
+@lengthOf( packetx ) calculatedFrom {	f32 packetx	``
+// packet A { u8 x, }
+//x
+, },
+} options { Z9_
+= ""\" ++ [233]%N ++ runes_of_ascii """
+    // a // b
+    float = ' ' ; packetx = ""x y""
+    calculatedFrom  = int16
+    ;
+}")).
+Eval vm_compute in ("<<<M161>>>" ++ check (runes_of_ascii "packet rootA{ options1 _x , u64
+    Header , } packet lengthOf {
+    @rightPad ( ' '	)
+@lengthOf( u128 // trailing space 
+)	@calculatedFrom(	""a\""b"" )  A {string i64_	`it's`,
+//	t
+// trailing space 
+uint8
+body
+, match pack as u {
+// @lengthOf(
+// trailing space 
+00 : charz , 00: int ,3
+: falsey 255 :body
+    ,
+[0123456789 ] :x_y_z ,
+// a // b
+//
+}
+,
+} ,
+} MetaData chars{ u128
+    zchar , char[ 42  ]
+// a // b
+// a // b
+metadata
+    , }
+")).
+Eval vm_compute in ("<<<M1236>>>" ++ check (runes_of_ascii "// top
+options // c0a
+  // c0b
+{ f32a
+    // c2
+= // c3
+0 } // c5
+packet trueish // c7a
+  // c7b
+{ // c8
+}
+    // c9
+MetaData _x // c11
+{ char[ // c13a
+  // c13b
+0123456789 // c14
+] // c15a
+  // c15b
+zchar
+    // c16
+, // c17a
+  // c17b
+string // c18
+crc ,
+    // c20
+char[
+    // c21
+1 ] // c23a
+  // c23b
+options1
+    // c24
+, uint8 // c26a
+  // c26b
+repeatCount
+    // c27
+, // c28
+} // c29
+")).
+Eval vm_compute in ("<<<M236>>>" ++ check (runes_of_ascii "packet metadata{ //	t
+float64	body
+    @lengthOf( calculatedFrom ) , // a // b
+@tag(42
+    ) rootA ,
+    x_y_z u8x`// not a comment`
+    ,  @lengthOf(Pad)  match // " ++ [27880; 37322]%N ++ runes_of_ascii "
+packetx  as leftPad
+    {
+    //
+    65535 : tag ,
+""" ++ [128512]%N ++ runes_of_ascii """ :_x} , x_y_z  metadata , @tag(7 )int64 zchar @lengthOf(
+repeatCount ) `" ++ [233]%N ++ runes_of_ascii "`,@tag( 0123456789 ) repeat float chars ,	f32  MetaDataX
+,}")).
 Eval vm_compute in ("<<<M377>>>" ++ check (runes_of_ascii "packet crc {match  trueish
     as
 len {
@@ -651,121 +929,108 @@ tag
 x= 10;
 }
 ")).
-Eval vm_compute in ("<<<M1138>>>" ++ check (runes_of_ascii "// top
-MetaData // c0
-leftPad // c1
-{ // c2
-chars // c3
-MetaDataX // c4
-, // c5
-} // c6
-packet // c7
-repeatCount // c8
-{ // c9
-char[ // c10
-255 // c11
-] // c12
-uint8x // c13
-`" ++ [233]%N ++ runes_of_ascii "` // c14
-, // c15
-} // c16
-MetaData // c17
-pack // c18
-{ // c19
-As // c20
-Foo // c21
-, // c22
-} // c23
-")).
-Eval vm_compute in ("<<<M1704>>>" ++ check (runes_of_ascii "packet A {
-    // c2a
-    // c2b
-    u8 a,
-}// c6a
+Eval vm_compute in ("<<<M1316>>>" ++ check (runes_of_ascii "  packet
 
-// c6b
-packet B {
-    // c9
-    u16 b,// c12
-}// c13a
+    MDSnapshotZZ	{	u8
 
-// c13b
-root packet P {
-    u8 K,
-    match K as M {
-        // c25a
-        // c25b
-        1 : A,
-        // c29
-        1 : B,
-    },
-}")).
-Eval vm_compute in ("<<<M1668>>>" ++ check (runes_of_ascii "
-packet
-lengthOf { }  root
-packet
-leftPad {zchar[
-    00  // a // b
-]Foo  `` 	 // c
-  ,
-@calculatedFrom(	""1""
-) @leftPad
-(
-' '
-    // trailing space 
-      // " ++ [27880; 37322]%N ++ runes_of_ascii "
+a 
+, }  packet
+    OrderACK  { u16
+b, }packet
+	HTTPServerInfo	{
+string
+s
 
-	)
+    ,
+}	root
+    packet  FIXMsg
+    { u8
+KType
+,MDSnapshotZZ  , repeat
 
-@leftPad (
-	' '
-)
+    OrderACK,  match 
+KType as Body{1 :
 
-repeat u8
-	options1
+HTTPServerInfo  ,	2
 
-,	}")).
-Eval vm_compute in ("<<<M1425>>>" ++ check (runes_of_ascii "packet A 
-{ 
-u8
+:OrderACK	,
 
-    a,
-    }
-
-    packet
-    B
-
-    {
-	u16 b,
-
-    }
-    root packet P
-    {u8  K,match
-	K
-as
-M
-	{ [
-    1
-    ,  2
-
-] :
-A,  3	:
-
-    B
-	,7 :
-
-A  ,  }
-
-,}")).
-Eval vm_compute in ("<<<M1827>>>" ++ check (runes_of_ascii "root packet _x {
-    uint32 trueish @calculatedFrom(""1"") `crlf
-    line`,
 }
 
-//
-packet Header {
-    repeat u64 stringy `// not a comment`,
-    float32 msg_type,
+    ,}")).
+Eval vm_compute in ("<<<M139>>>" ++ check (runes_of_ascii "packet//x
+x_y_z {rootA @lengthOf( o ) `two words` ,} MetaData f32a{
+trueish
+    // packet A { u8 x, }
+    x , }
+    MetaData body
+    { u128 pack , f64
+    // @lengthOf(
+    float	, char[ 65535
+//	t
+/// triple
+] tag `" ++ [233]%N ++ runes_of_ascii "`// c
+,  } // " ++ [128512]%N ++ runes_of_ascii " emoji")).
+Eval vm_compute in ("<<<M1593>>>" ++ check (runes_of_ascii "// top
+    root 	 // c0a
+    // c0b
+
+  packet P {
+    // c3
+
+u16 
+      // c4
+  a  
+      // c5
+	,  
+      // c6
+
+	u32 // c7a
+// c7b
+
+  Sum // c8
+    @calculatedFrom(  // c9a
+
+	// c9b
+    	""CRC32"") ,}  // c13")).
+Eval vm_compute in ("<<<M1889>>>" ++ check (runes_of_ascii "
+
+  root
+
+packet
+Frame{	u8 K	, 
+Logon
+first ,	match
+	K
+as 
+Body	{
+1 :
+Logon
+    ,
+
+    2
+: 
+Logout
+
+    , }  ,
+
+} packet 
+Logon
+{
+	string
+user,}packet Logout {u16 reason ,
+    }
+
+")).
+Eval vm_compute in ("<<<M1606>>>" ++ check (runes_of_ascii "packet A {
+    match k as n {
+        [
+            ""a"", 22, ""c c"", 4, ""e"",
+            66, ""g"", 8, ""i"", 10,
+            ""k""
+        ] : B,
+        2 : C,
+    },
 }")).
 Eval vm_compute in ("<<<M441>>>" ++ check (runes_of_ascii "packet uint8x
 { match pack
@@ -800,7 +1065,7 @@ a1
     { } options {packetx
     = '\x00'	; u128= ""a	b""  ; }
 ")).
-Eval vm_compute in ("<<<M507>>>" ++ check (runes_of_ascii "packet uint8x
+Eval vm_compute in ("<<<M512>>>" ++ check (runes_of_ascii "packet uint8x
 { match pack
     as msg_type	{
     0123456789 :	float
@@ -809,213 +1074,295 @@ Eval vm_compute in ("<<<M507>>>" ++ check (runes_of_ascii "packet uint8x
 } packet //	t
 a1
     { } options {packetx
-    = '\x00'	u128 ;= ""a	b""  ; }
+    = '\x00'	; =u128 ""a	b""  ; }
 ")).
-Eval vm_compute in ("<<<M433>>>" ++ check (runes_of_ascii "packet uint8x
+Eval vm_compute in ("<<<M503>>>" ++ check (runes_of_ascii "packet uint8x
 { match pack
     as msg_type	{
-    ""`tick`"" :	float
+    0123456789 :	float
 }
 ,
 } packet //	t
 a1
     { } options {packetx
-    = '\x00'	; u128= ""a	b""  ; }
+    = char	; u128= ""a	b""  ; }
 ")).
-Eval vm_compute in ("<<<M684>>>" ++ check (runes_of_ascii "// @lengthOf(
-packet i8i8 { u128 o , }
+Eval vm_compute in ("<<<M687>>>" ++ check (runes_of_ascii "// @lengthOf(
+packet i8i8 { u128 o , , }
 options { MetaDataX = true;
     BodyLength =""packet"" x_y_z= 007
 crc //x
 = ""abc"" ;
     msg_type =
-i16 } }")).
-Eval vm_compute in ("<<<M681>>>" ++ check (runes_of_ascii "// @lengthOf(
+i16 }")).
+Eval vm_compute in ("<<<M694>>>" ++ check (runes_of_ascii "// @lengthOf(
 packet i8i8 { u128 o , }
 options { MetaDataX = true;
-    BodyLength =""packet"" x_y_z= 007
+    = BodyLength""packet"" x_y_z= 007
 crc //x
 = ""abc"" ;
-    msg_type i16
-= }")).
-Eval vm_compute in ("<<<M1544>>>" ++ check (runes_of_ascii "// top
-options {
-    // c1a
-    // c1b
-    FixedStringPadFromLeft = true;// c5a
+    msg_type =
+i16 }")).
+Eval vm_compute in ("<<<M1555>>>" ++ check (runes_of_ascii "
+
+  packet A { u8
+    a
+,
+    } packet	B{ u16
+b , }  root packet
+    P
+	{ 
+u8
+K,
+
+match
+K as
+    M 
+{  1
+:
+	A
+, 1
+
+:  B
+
+    ,
 }
 
-// c6
-root packet P {
-    // c10
-    char[4] z,
-}// c16a")).
-Eval vm_compute in ("<<<M37>>>" ++ check (runes_of_ascii "//
-root /// triple
-packet // trailing space 
-pack {
-@leftPad(
-    ' ' )
-    repeat trueish zchar ,	} root
-    packet // " ++ [27880; 37322]%N ++ runes_of_ascii "
-Header { }")).
-Eval vm_compute in ("<<<M1922>>>" ++ check (runes_of_ascii "
-options
-{ 
-Logon
-    =
-0} options  { 
-msg_type = 3
-    MetaDataX= 
-    // " ++ [128512]%N ++ runes_of_ascii " emoji
-      int8	uint8x
-= """"	;	As
-=
-'0'
-	}
+,}
 ")).
-Eval vm_compute in ("<<<M1152>>>" ++ check (runes_of_ascii "MetaData leftPad { chars MetaDataX
-// c
-, } packet repeatCount { char[ 255 ] uint8x `" ++ [233]%N ++ runes_of_ascii "` , } MetaData pack { As Foo , }")).
-Eval vm_compute in ("<<<M1184>>>" ++ check (runes_of_ascii "MetaData leftPad { chars MetaDataX , } packet repeatCount { char[ 255 ] uint8x `" ++ [233]%N ++ runes_of_ascii "` , } MetaData pack { As
-// c
-Foo , }")).
-Eval vm_compute in ("<<<M1828>>>" ++ check (runes_of_ascii "packet A  {match 
-k	as	n
-
-    {
-
-[""a""  , 22, 
-""c c"" 
-,4
-,""e""
-, 66  ,
-	""g""	,
-	8  ,
-""i"" 
-]
-:	B	2
-	:
-	C 
-}
-	,}
-
-")).
-Eval vm_compute in ("<<<M1279>>>" ++ check (runes_of_ascii "options {
+Eval vm_compute in ("<<<M1270>>>" ++ check (runes_of_ascii "options {
     LittleEndian = true;
 }
+packet B {
+    u8 a,
+    string s,
+}
 root packet P {
-    u16 a,
-    u32 Sum @calculatedFrom(""CR\
-C32""),
+    u16 L @lengthOf(B),
+    B,
+    u8 t,
 }
 ")).
-Eval vm_compute in ("<<<M889>>>" ++ check (runes_of_ascii "packet A {
-  match k as n {
-    [""a"", ""bb"", 007, ""d"", ""e"", 66, ""g"", ""h"", 9, ""j""] : B
-    2 : C
-  },
-}")).
-Eval vm_compute in ("<<<M882>>>" ++ check (runes_of_ascii "packet A {
-  match k as n {
-    [1, ""bb"", 007, ""d"", 5, ""f"", 7, ""h"", 9, ""j""] : B,
-    2 : C
-  },
-}")).
-Eval vm_compute in ("<<<M630>>>" ++ check (runes_of_ascii "
-packet
-    a@tagsx {match u128 as lengthOf
+Eval vm_compute in ("<<<M1905>>>" ++ check (runes_of_ascii "
+packet	A	{ match
+    k 
+as n
+
+    {
+    [
+""a"" 
+,
+    22
+
+    ,
+
+    ""c c"",
+4
+	]
+
+:
+	B
+
+    2
+:C
+
+    } ,
+    }
+")).
+Eval vm_compute in ("<<<M1950>>>" ++ check (runes_of_ascii "packet
+A{match k
+as n
 {
-//	t
-// `tick` ""quote"" 'q'
-255 : x ,
-    } ,	}")).
-Eval vm_compute in ("<<<M682>>>" ++ check (runes_of_ascii "// @lengthOf(
-packet i8i8 { u128 o , }
-options { MetaDataX = true;
-    BodyLength =""packet""")).
-Eval vm_compute in ("<<<M849>>>" ++ check (runes_of_ascii "packet A {
-  match k as n {
-    [""a"", ""bb"", 007, ""d"", ""e"", 66, ""g""] : B,
-    2 : C
-  },
-}")).
-Eval vm_compute in ("<<<M1811>>>" ++ check (runes_of_ascii "packet A {
+    [ 1 ,	22
+,007, 4,	5
+, 66, 
+7
+
+    ,
+	8,
+9 , 10,
+	11
+    ]
+	: B
+,
+	2:
+
+C}
+
+    ,
+
+}
+")).
+Eval vm_compute in ("<<<M1172>>>" ++ check (runes_of_ascii "MetaData leftPad { chars MetaDataX , } packet repeatCount { char[ 255 ] uint8x `" ++ [233]%N ++ runes_of_ascii "`
+// c
+, } MetaData pack { As Foo , }")).
+Eval vm_compute in ("<<<M967>>>" ++ check (runes_of_ascii "packet A {
     match k as n {
-        [1, 22, 4, 5, ""c c""] : B,
-        2 : C,
+        ""x\
+y"" : B,
+        [""x\
+y"", 1] : C,
+        [1,2,3,4,5,""x\
+y""] : D,
     },
 }")).
-Eval vm_compute in ("<<<M116>>>" ++ check (runes_of_ascii "root packet Z9_ { repeat lengthOf
-pack , repeat
-    A {	repeatCount`doc` ,
-    },	}")).
-Eval vm_compute in ("<<<M616>>>" ++ check (runes_of_ascii "
+Eval vm_compute in ("<<<M1908>>>" ++ check (runes_of_ascii "packet A  {
+match
+    k	as
+
+    n {
+[
+""a""
+,
+
+    22 , ""c c""
+, 4
+,
+""e"" ] : B
+,
+
+    2
+	: C
+	} , }
+")).
+Eval vm_compute in ("<<<M353>>>" ++ check (runes_of_ascii "options { _x
+    =
+    ""`tick`""	;matchKey=
+""it's""
+;	options1
+    = u16 ; stringy= true
+    // c
+    }
+")).
+Eval vm_compute in ("<<<M1957>>>" ++ check (runes_of_ascii "  packet
+
+    A
+
+{Inner	{
+    u8 x
+    `x
+`
+
+    ,
+Deep
+{
+	u8 
+y`x
+`
+    , } 
+,	}
+
+    , } ")).
+Eval vm_compute in ("<<<M862>>>" ++ check (runes_of_ascii "packet A {
+  match k as n {
+    [""a"", ""bb"", 007, ""d"", ""e"", 66, ""g"", ""h""] : B,
+    2 : C
+  },
+}")).
+Eval vm_compute in ("<<<M608>>>" ++ check (runes_of_ascii "
 packet
     asx {match u128 as lengthOf
 {
 //	t
 // `tick` ""quote"" 'q'
-255 : x ,")).
-Eval vm_compute in ("<<<M166>>>" ++ check (runes_of_ascii "packet calculatedFrom {repeat // packet A { u8 x, }
-string Foo`{ , }`	, }
+255 : x , ,
+    } ,	}")).
+Eval vm_compute in ("<<<M579>>>" ++ check (runes_of_ascii "
+packet
+    asx {match u128 lengthOf as
+{
+//	t
+// `tick` ""quote"" 'q'
+255 : x ,
+    } ,	}")).
+Eval vm_compute in ("<<<M828>>>" ++ check (runes_of_ascii "packet A {
+  match k as n {
+    [""a"", ""bb"", ""c c"", ""d"", ""e"", ""f""] : B,
+    2 : C
+  },
+}")).
+Eval vm_compute in ("<<<M1302>>>" ++ check (runes_of_ascii "packet order_item {
+    u8 a,
+}
+root packet new_order {
+    order_item,
+    u8 x,
+}
 ")).
-Eval vm_compute in ("<<<M813>>>" ++ check (runes_of_ascii "packet A {
+Eval vm_compute in ("<<<M831>>>" ++ check (runes_of_ascii "packet A {
   match k as n {
-    [1, 22, 007, 4, 5] : B,
+    [1, ""bb"", 007, ""d"", 5, ""f""] : B
     2 : C
   },
 }")).
-Eval vm_compute in ("<<<M1825>>>" ++ check (runes_of_ascii "packet u {
-    @tag(10)
-    tag @lengthOf(A),
-    repeat options1,
+Eval vm_compute in ("<<<M1546>>>" ++ check (runes_of_ascii "packet A {
+    match k as n {
+        [1, ""bb""] : B,
+        2 : C,
+    },
 }")).
-Eval vm_compute in ("<<<M782>>>" ++ check (runes_of_ascii "packet A {
-  match k as n {
-    [1, ""bb""] : B,
-    2 : C
-  },
+Eval vm_compute in ("<<<M1590>>>" ++ check (runes_of_ascii "root packet P {
+    u16 a,
+    u32 Sum @calculatedFrom(""CR\
+    C32""),
 }")).
-Eval vm_compute in ("<<<M751>>>" ++ check (runes_of_ascii "options @calculatedFrom( repeat } [ @tag( uint32 char[] ] :")).
-Eval vm_compute in ("<<<M1093>>>" ++ check (runes_of_ascii "packet A { repeat // a
- B // b
- b // c
- `d` // e
- , }")).
-Eval vm_compute in ("<<<M1218>>>" ++ check (runes_of_ascii "packet body { i32 f32a `{ , }` , } options {
+Eval vm_compute in ("<<<M739>>>" ++ check (runes_of_ascii "zchar[ i64 @calculatedFrom( match false ) Header char[ @lengthOf( :")).
+Eval vm_compute in ("<<<M365>>>" ++ check (runes_of_ascii "MetaData x_y_z { i8i8 u8x , string	uint8x
+    `crlf
+line` , }")).
+Eval vm_compute in ("<<<M1850>>>" ++ check (runes_of_ascii "MetaData M {
+    u8 x `x
+        `,
+    T t `x
+        `,
+}")).
+Eval vm_compute in ("<<<M627>>>" ++ check (runes_of_ascii "
+packet
+    asx {match u128 as lengthOf
+{
+//	t
+// `t")).
+Eval vm_compute in ("<<<M1217>>>" ++ check (runes_of_ascii "packet body { i32 f32a `{ , }` , } options { // c
+}")).
+Eval vm_compute in ("<<<M1753>>>" ++ check (runes_of_ascii "packet stringy {
+}
+
+MetaData crc {
+    u16 o,
+}")).
+Eval vm_compute in ("<<<M965>>>" ++ check (runes_of_ascii "options {
+    a = ""x\
+y"";
+    b = ""x\
+y""
+}")).
+Eval vm_compute in ("<<<M274>>>" ++ check (runes_of_ascii "packet Z9_
+{ }
+    packet Pad { } 	 ")).
+Eval vm_compute in ("<<<M958>>>" ++ check (runes_of_ascii "root packet A {
+    u8 x `
+x`,
+}")).
+Eval vm_compute in ("<<<M1013>>>" ++ check (runes_of_ascii "packet A {
+ u8 x `d" ++ [8232]%N ++ runes_of_ascii "`, // c" ++ [8232]%N ++ runes_of_ascii "
+}")).
+Eval vm_compute in ("<<<M655>>>" ++ check (runes_of_ascii "// @lengthOf(
+packet i8i8 {")).
+Eval vm_compute in ("<<<M1104>>>" ++ check (runes_of_ascii "
+// c
+MetaData tag { }")).
+Eval vm_compute in ("<<<M1129>>>" ++ check (runes_of_ascii "
+// c
+MetaData u { }")).
+Eval vm_compute in ("<<<M986>>>" ++ check (runes_of_ascii "packet A {
+}
+// c" ++ [160]%N)).
+Eval vm_compute in ("<<<M1225>>>" ++ check (runes_of_ascii "
+// c
+packet x { }")).
+Eval vm_compute in ("<<<M1231>>>" ++ check (runes_of_ascii "packet x {
 // c
 }")).
-Eval vm_compute in ("<<<M233>>>" ++ check (runes_of_ascii "MetaData _x { i64 u128	, Packet Header, } 	 ")).
-Eval vm_compute in ("<<<M1519>>>" ++ check (runes_of_ascii "
-options{options1  =
-	7
-
-    ;
-
-    }")).
-Eval vm_compute in ("<<<M1092>>>" ++ check (runes_of_ascii "root // a
- packet // b
- A // c
- { }")).
-Eval vm_compute in ("<<<M753>>>" ++ check (runes_of_ascii ":l" ++ [65533; 23]%N ++ runes_of_ascii "9" ++ [65533; 1549]%N ++ runes_of_ascii "F" ++ [65533; 65533; 65533; 65533]%N ++ runes_of_ascii "j)" ++ [65533; 65533; 27; 25; 65533; 65533; 261; 14; 65533]%N ++ runes_of_ascii "V" ++ [65533; 65533]%N ++ runes_of_ascii "4b-" ++ [65533; 65533]%N)).
-Eval vm_compute in ("<<<M1077>>>" ++ check (runes_of_ascii "MetaData M {
-}// c
-options {}")).
-Eval vm_compute in ("<<<M1685>>>" ++ check (runes_of_ascii "
-
-  packet	A {
-}  // c" ++ [160]%N)).
-Eval vm_compute in ("<<<M1064>>>" ++ check (runes_of_ascii "packet A {
-}// a// b")).
-Eval vm_compute in ("<<<M1132>>>" ++ check (runes_of_ascii "MetaData u // c
-{ }")).
-Eval vm_compute in ("<<<M1027>>>" ++ check (runes_of_ascii "// c" ++ [8287]%N ++ runes_of_ascii "
-packet A {
-}")).
-Eval vm_compute in ("<<<M1009>>>" ++ check (runes_of_ascii "packet A {
-}// c" ++ [8232]%N)).
-Eval vm_compute in ("<<<M1910>>>" ++ check (runes_of_ascii "packet pack {
-}")).
-Eval vm_compute in ("<<<M1040>>>" ++ check (runes_of_ascii "// c 	")).
-Eval vm_compute in ("<<<M736>>>" ++ check (runes_of_ascii " " ++ [12]%N ++ runes_of_ascii " ")).
+Eval vm_compute in ("<<<M742>>>" ++ check (runes_of_ascii "'j=KG=k_)FDOq")).
+Eval vm_compute in ("<<<M1005>>>" ++ check (runes_of_ascii "// c" ++ [8202]%N)).
+Eval vm_compute in ("<<<M734>>>" ++ check ([65279]%N)).
